@@ -131,3 +131,81 @@ for _f in ('SQRTPI', 'FACT', 'FACTDOUBLE'):
     UNITS.append(Unit(id=f'C16/math.{_f}/domain', target=f'{MOD_}:{_f}', inputs=[('x', X([-2.5, -1.0, -0.5]))],
                       requires=lambda x: x.value < 0,
                       cases=[Case(f'{_f} of a negative number is an Excel error value', lambda x: True, lambda x, out: spec.is_error(out))]))
+
+
+# ---- rounding family over the reals, on an exact model of decimal.Decimal (pyvc/models_decimal.py) -----------------------------------------
+# ROUND / ROUNDUP / ROUNDDOWN / TRUNC(x, n) / INT and CEILING / FLOOR(x, significance) are interpreted from source - `_round`,
+# `decimal.Decimal(str(x))`, the local context's rounding mode, `round(d, n)`, `to_integral_value` - for ALL real x with a concrete digit
+# count / significance per instance.  The reference is written independently with floor / ceiling of |x| * 10**n.
+import fractions as _fr
+
+
+def _scale(n):
+    return _fr.Fraction(10) ** int(n)
+
+
+def _rnd_ref(kind, x, n):
+    """reference value of the rounding `kind` of x at n digits; x symbolic real / int or concrete"""
+    sc = _scale(n)
+    if is_sym(x):
+        xr = S.to_real(S.lift(x))
+        scz = z3.RealVal(f'{sc.numerator}/{sc.denominator}')
+        a = z3.If(xr >= 0, xr, -xr) * scz
+        fl = z3.ToReal(z3.ToInt(a))
+        ce = -z3.ToReal(z3.ToInt(-a))
+        mag = {'half-away': z3.ToReal(z3.ToInt(a + z3.RealVal('1/2'))), 'away': ce, 'toward': fl}[kind]
+        return Sym(z3.If(xr >= 0, mag, -mag) / scz, 'real')
+    xf = _fr.Fraction(str(x)) if not isinstance(x, int) else _fr.Fraction(x)     # the decimal rendering of the double (A-float)
+    a = abs(xf) * sc
+    import math as _mm
+    mag = {'half-away': _mm.floor(a + _fr.Fraction(1, 2)), 'away': _mm.ceil(a), 'toward': _mm.floor(a)}[kind]
+    return float((mag if xf >= 0 else -mag) / sc)
+
+
+def _int_ref(x):
+    if is_sym(x):
+        return Sym(z3.ToReal(z3.ToInt(S.to_real(S.lift(x)))), 'real')
+    return float(_m.floor(_fr.Fraction(str(x)) if not isinstance(x, int) else x))
+
+
+RX = lambda: Fork([Xl('Number', 'real', domain=[2.5, -2.5, 0.125, 1.005, -0.5, 1234.5678, 0.0, 1e-7]), Xl('Number', 'int', domain=[-3, 0, 15, 25, 1250])])
+for _f, _kind in (('ROUND', 'half-away'), ('ROUNDUP', 'away'), ('ROUNDDOWN', 'toward'), ('TRUNC', 'toward')):
+    for _n in (-2, -1, 0, 1, 2, 3):
+        if _f == 'TRUNC' and _n == 0:
+            continue                            # TRUNC(x) without digits: C16/math.TRUNC#0 above
+        UNITS.append(Unit(
+            id=f'C16/math.{_f}[digits={_n}]', target=f'{MOD_}:{_f}', inputs=[('x', RX())],
+            cases=[Case(f'{_f}(x, {_n}) rounds |x| at {_n} decimal digits {"half away from zero" if _kind == "half-away" else _kind + " zero"} and keeps the sign (exact decimal arithmetic)',
+                        lambda x: True, (lambda k, n: lambda x, out: spec.numeric_result(out, _rnd_ref(k, x.value, n), tol=1e-12))(_kind, _n))],
+            canary=Case('canary', lambda x: True, (lambda k, n: lambda x, out: spec.numeric_result(out, _rnd_ref(k, x.value, n) + 1, tol=1e-12))(_kind, _n)),
+            call=(lambda n: lambda it, fn, x: it.call(fn, [x, n], {}))(_n), native_call=(lambda n: lambda fn, x: fn(x, n))(_n), bounded_domain_cap=40))
+UNITS.append(Unit(
+    id='C16/math.INT', target=f'{MOD_}:INT', inputs=[('x', RX())],
+    cases=[Case('INT(x) is the greatest integer not above x (rounds negative numbers away from zero)', lambda x: True,
+                lambda x, out: spec.numeric_result(out, _int_ref(x.value), tol=1e-12))],
+    canary=Case('canary', lambda x: True, lambda x, out: spec.numeric_result(out, _int_ref(x.value) + 1, tol=1e-12))))
+
+
+def _mult_ref(kind, x, s):
+    """CEILING / FLOOR to a multiple of the (concrete, non-zero) significance s"""
+    sf = _fr.Fraction(str(s))
+    if is_sym(x):
+        xr = S.to_real(S.lift(x))
+        sz = z3.RealVal(f'{sf.numerator}/{sf.denominator}')
+        q = xr / sz
+        m = -z3.ToReal(z3.ToInt(-q)) if kind == 'ceil' else z3.ToReal(z3.ToInt(q))
+        return Sym(m * sz, 'real')
+    q = (_fr.Fraction(str(x)) if not isinstance(x, int) else _fr.Fraction(x)) / sf
+    return float((_m.ceil(q) if kind == 'ceil' else _m.floor(q)) * sf)
+
+
+for _f, _kind in (('CEILING', 'ceil'), ('FLOOR', 'floor')):
+    for _s in (0.1, 0.5, 2.0, 10.0, -2.0):
+        def _req(x, _s=_s, _f=_f):
+            # the functions' own domain: a negative significance with a positive number is #NUM!; FLOOR(0, s) = 0 is a special case of the same formula
+            return Not(And(_s < 0, x.value > 0))
+        UNITS.append(Unit(
+            id=f'C16/math.{_f}[significance={_s}]', target=f'{MOD_}:{_f}', inputs=[('x', RX())], requires=_req,
+            cases=[Case(f'{_f}(x, {_s}) is the {"smallest multiple of the significance not below" if _kind == "ceil" else "greatest multiple of the significance not above"} x (exact decimal arithmetic)',
+                        lambda x: True, (lambda k, s: lambda x, out: spec.numeric_result(out, _mult_ref(k, x.value, s), tol=1e-9))(_kind, _s))],
+            call=(lambda s: lambda it, fn, x: it.call(fn, [x, s], {}))(_s), native_call=(lambda s: lambda fn, x: fn(x, s))(_s), bounded_domain_cap=40))
